@@ -165,10 +165,14 @@ def build(rng, geom, jax, jnp, blocks, D, torus, n_lead):
     n_tr = int(rng.integers(0, 4))
     round_trip = False
     for _ in range(n_tr):
-        tr = ["copy", "from_vector", "jit", "flatten", "vmap" if n_lead >= 1 else "jit", "expand_combine" if n_lead >= 1 else "copy"][int(rng.integers(6))]
+        tr = ["copy", "from_vector", "jit", "flatten", "vmap" if n_lead >= 1 else "jit", "expand_combine" if n_lead >= 1 else "copy", "setitem"][int(rng.integers(7))]
         hist.append(tr)
         if tr == "copy":
             mi = mi.copy()
+        elif tr == "setitem":
+            # a block re-assigned through the public setter (same content, a fresh array object)
+            t_ = list(mi.keys())[int(rng.integers(len(mi.keys())))]
+            mi[t_] = (_CONV or jnp.asarray)(np.array(np.asarray(mi[t_])))
         elif tr == "from_vector":
             mi = geom.MultiImage.from_vector(mi.to_vector(), mi)
         elif tr == "jit":
